@@ -93,14 +93,30 @@ Definition explicit_query (ep : endpoint) : option str :=
   | Version _ _ _ | History _ _ | Changeset _ | ChangesetDownload _ | Note _ | User _ => None
   end.
 
-Definition explicit_url (cfg : str) (ep : endpoint) : str :=
+Definition explicit_url_std (cfg : str) (ep : endpoint) : str :=
   base_url cfg ++ spec_path ep ++
   match explicit_query ep with None => [] | Some q => "?"%char :: q end.
+
+(* a second admissible shape when no feature option is given: no dangling '?' / '&' *)
+Definition no_fopts (ep : endpoint) : bool :=
+  match ep with
+  | Get _ _ [] | NodeWays _ [] | RelationsOf _ _ [] | Full _ _ [] | Map _ [] | Multi _ _ [] => true
+  | _ => false
+  end.
+Definition core_query (ep : endpoint) : option str :=
+  match ep with
+  | Map b _ => Some (bbox_piece b)
+  | Multi e ids _ => Some (plural e ++ lit "=" ++ idlist ids)
+  | _ => None
+  end.
+Definition alt_url (cfg : str) (ep : endpoint) : str :=
+  base_url cfg ++ spec_path ep ++
+  match core_query ep with None => [] | Some q => "?"%char :: q end.
 
 Lemma join_cons_head sep c x r : join sep ((c :: x) :: r) = c :: join sep (x :: r).
 Proof. destruct r; reflexivity. Qed.
 
-Lemma fstring_cons_nonempty a o : exists c t, join (lit feature_sep) (map at_piece (a :: o)) = c :: t.
+Lemma fstring_cons_nonempty a o : exists c t, join amp (map at_piece (a :: o)) = c :: t.
 Proof.
   destruct a as [t]. cbn [map at_piece].
   change (lit "at=" ++ iso8601 t) with ("a"%char :: lit "t=" ++ iso8601 t).
@@ -115,41 +131,74 @@ Ltac find_the_method :=
 
 Ltac eval_url :=
   cbn [eval eval_args eval_list e_params e_base e_opt nth_error field_of String.eqb Ascii.eqb Bool.eqb andb];
-  rewrite ?rmap_fopts, ?rmap_nopts.
+  rewrite ?rmap_fopts, ?rmap_nopts; change (lit feature_sep) with amp.
 
-Ltac finish_url :=
-  cbn [rbind as_str sprintf sprintf_go sprintf_piece lit list_ascii_of_string Ascii.eqb Bool.eqb orb andb];
-  rewrite ?app_nil_r; try reflexivity;
-  try (unfold explicit_url, explicit_query, spec_path, bbox_piece, bbox_value, q_piece; cbv iota; rewrite <- ?app_assoc, ?app_nil_r; reflexivity).
+Ltac compute_url :=
+  repeat (progress (cbn [rbind as_str sprintf sprintf_go sprintf_piece lit list_ascii_of_string
+                         Ascii.eqb Bool.eqb orb andb]; cbv iota));
+  rewrite ?app_nil_r.
 
-Ltac simple_url := find_the_method; eval_url; finish_url.
+Ltac norm_app :=
+  repeat (progress (rewrite <- ?app_assoc, ?app_nil_r; cbn [app lit list_ascii_of_string])).
+
+Ltac close_with defs :=
+  defs; unfold explicit_query, core_query, spec_path, bbox_piece, bbox_value, q_piece, fstring;
+  cbn [map join]; cbv iota; norm_app; reflexivity.
+
+Ltac close_std := close_with ltac:(unfold explicit_url_std).
+Ltac close_std_keep_join :=
+  unfold explicit_url_std, explicit_query, spec_path, bbox_piece, bbox_value, q_piece;
+  cbv iota; rewrite <- ?app_assoc, ?app_nil_r; reflexivity.
+Ltac close_alt := close_with ltac:(unfold alt_url).
+
+(* calls without feature options: one shape *)
+Ltac simple_url := find_the_method; eval_url; compute_url; left; close_std.
+
+(* calls with feature options [o]: empty list (either shape), non-empty list (standard shape) *)
+Ltac fopts_url o :=
+  find_the_method; eval_url;
+  let a := fresh "a" in
+  destruct o as [|a o];
+  [ cbn [map join]; cbv iota; compute_url;
+    first [ left; close_std | right; split; [reflexivity|close_alt] ]
+  | let c := fresh "c" in let t := fresh "t" in let Ht := fresh "Ht" in
+    destruct (fstring_cons_nonempty a o) as [c [t Ht]];
+    left; unfold explicit_url_std, explicit_query, fstring;
+    compute_url; rewrite ?Ht; cbv iota; compute_url; rewrite ?Ht;
+    unfold spec_path, bbox_piece, bbox_value; norm_app; reflexivity ].
+
+Lemma url_of_shape cfg ep :
+  options_valid ep = true ->
+  url_of cfg ep = Ok (explicit_url_std cfg ep) \/
+  (no_fopts ep = true /\ url_of cfg ep = Ok (alt_url cfg ep)).
+Proof.
+  intros Hv. destruct ep as [e id o|e ids o|e id v|e id|id o|e id o|e id o|b o|id|id|id|id|b os|q os|id].
+  - destruct e; fopts_url o.
+  - destruct e; fopts_url o.
+  - destruct e; simple_url.
+  - destruct e; simple_url.
+  - fopts_url o.
+  - destruct e; fopts_url o.
+  - destruct e; fopts_url o.
+  - fopts_url o.
+  - simple_url.
+  - simple_url.
+  - simple_url.
+  - simple_url.
+  - cbn [options_valid] in Hv. find_the_method; eval_url. rewrite Hv. compute_url. left; close_std_keep_join.
+  - cbn [options_valid] in Hv. find_the_method; eval_url. rewrite Hv. compute_url. left; close_std_keep_join.
+  - simple_url.
+Qed.
+
+(* the URL of a call (defined for valid options) *)
+Definition explicit_url (cfg : str) (ep : endpoint) : str :=
+  match url_of cfg ep with Ok u => u | _ => [] end.
 
 Lemma url_of_explicit cfg ep :
   options_valid ep = true -> url_of cfg ep = Ok (explicit_url cfg ep).
 Proof.
-  intros Hv. destruct ep as [e id o|e ids o|e id v|e id|id o|e id o|e id o|b o|id|id|id|id|b os|q os|id].
-  - destruct e; simple_url.
-  - destruct e; find_the_method; eval_url.
-    all: change (lit feature_sep) with amp.
-    all: destruct o as [|a o];
-      [ finish_url; cbn [join map]; cbv iota; cbn [rbind as_str];
-        unfold explicit_url, explicit_query; rewrite <- ?app_assoc, ?app_nil_r; reflexivity
-      | destruct (fstring_cons_nonempty a o) as [c [t Ht]]; change (lit feature_sep) with amp in Ht;
-        finish_url; unfold explicit_url, explicit_query, fstring;
-        rewrite Ht; cbv iota; cbn [rbind as_str]; rewrite <- ?app_assoc; reflexivity ].
-  - destruct e; simple_url.
-  - destruct e; simple_url.
-  - simple_url.
-  - destruct e; simple_url.
-  - destruct e; simple_url.
-  - simple_url.
-  - simple_url.
-  - simple_url.
-  - simple_url.
-  - simple_url.
-  - cbn [options_valid] in Hv. find_the_method; eval_url. rewrite Hv. finish_url.
-  - cbn [options_valid] in Hv. find_the_method; eval_url. rewrite Hv. finish_url.
-  - simple_url.
+  intros Hv. unfold explicit_url.
+  destruct (url_of_shape cfg ep Hv) as [H|[_ H]]; rewrite H; reflexivity.
 Qed.
 
 Lemma url_of_reject cfg ep : options_valid ep = false -> url_of cfg ep = Reject.
